@@ -321,6 +321,44 @@ def cmd_family(seed, n, depth=2, maxlen=4, budget=8000, extras=("help", "unk", "
     return out
 
 
+def posfirst_family(seed, n, maxlen=4, budget=5000):
+    """a positional item declared in front of a name-led adjacent group (`NAME [--at X Y]`) - engine GroupLine"""
+    out = []
+    for i in range(n):
+        wrap = ["opt", "many", "one"][i % 3]
+        g = adjf("g0", wrap, rf("h0", "one", "--at"), posm("x", "int"), posm("y", "int")) if i % 2 == 0 else \
+            adjf("g0", wrap, rf("h0", "one", "--at"), ar("w", "one", "int", "--ww"), posm("y", "int"))
+        items = [pos("p0", "one")] + ([pos("p1", "opt")] if i % 4 == 3 else [])
+        lvl = level([g], postail(*items))
+        lvl["pos_first"] = True
+        d = mkdef(f"posfirst{seed}_{i}", lvl, maxlen=maxlen, extras=("help",), spells=("sep",), words=("1", "x"))
+        galpha_trim(d, budget)
+        out.append(d)
+    return out
+
+
+def prepos_family(seed, n, maxlen=4, budget=6000, extras=("help", "unk")):
+    """levels that declare a positional item in front of their subcommands (`app one NAME two -b`): the word goes to
+    the positional, the next one must name a command; commands with items of their own, nested twice"""
+    rnd = random.Random(seed)
+    out = []
+    for i in range(n):
+        two = level([sw("tb", "-b"), rf("tc", "count", "-c")] if i % 2 else [sw("tb", "-b")],
+                    [NOTAIL, postail(pos("tp", "opt"))][(i // 2) % 2], version=(i % 5 == 1))
+        t1 = cmdtail([cmd(["two", "t2"], two)] + ([cmd("three", level([], NOTAIL))] if i % 3 == 0 else []), optional=(i % 4 == 3))
+        t1["pre_pos"] = [pos("np", "one", vt="str" if i % 3 else "int")]
+        one = level([sw("om", "-m")] if i % 2 == 0 else [ar("om", "opt", "str", "-m")], t1, version=(i % 4 == 0), ftu=(i % 6 == 5))
+        if i % 3 == 1:
+            # the positional at the root itself
+            root = one
+        else:
+            root = level([sw("rv", "-v")] if i % 2 else [], cmdtail([cmd(["one"], one)], optional=(i % 7 == 6)))
+        d = mkdef(f"prepos{seed}_{i}", root, maxlen=maxlen, extras=extras, spells=("sep",), words=("two", "1"))
+        trim_to_budget(d, budget)
+        out.append(d)
+    return out
+
+
 # ---------------------------------------------------------------- positionals and `--` (C09)
 def pos_family(seed, n, maxlen=4, budget=8000):
     rnd = random.Random(seed)
